@@ -12,6 +12,14 @@ def fuzz(name, target, fuzztime, workers=8, timeout=None):
     return {"name": name, "kind": "fuzz", "target": target, "thorough": t}
 
 PROPS = {
+    "C09": {
+        "level": "exploration",
+        "jobs": [
+            rapid("regress", "^TestC09Regress$", {"checks": 1, "timeout": 300}, {"checks": 1, "timeout": 300}),
+            rapid("pending", "^TestC09$", {"checks": 30, "steps": 35, "shards": 8, "timeout": 900, "shrinktime": "30s"},
+                  {"checks": 500, "steps": 60, "shards": 14, "timeout": 5000, "shrinktime": "120s"}),
+        ],
+    },
     "C01": {
         "level": "exploration",
         "jobs": [
